@@ -21,27 +21,27 @@ Operands(name) == CASE name \in {"add_assoc", "add_mono"} -> 3
                     [] OTHER -> 1
 
 FF == <<"fx", "fx">>
-FI == <<"fx", "i64">>
+FI(tg) == <<"fx", tg>>          \* fixed op integer of type tg
 I(op, t, d, s, imm) == [op |-> op, t |-> t, d |-> d, s |-> s, imm |-> imm]
 RR2(op, d, x, y) == I(op, FF, d, <<x, y>>, <<Z0, Z0>>)
 Ld(d, v) == I("load", <<"fx">>, d, <<0>>, <<v>>)
 
-(* the instruction tail of a law; n is the integer operand (Z) of the two scalar laws *)
-LawTailOf(name, ra, rb, rc, f, n) ==
+(* the instruction tail of a law; n is the integer operand (Z) of the two scalar laws and tg its C++ type *)
+LawTailOf(name, ra, rb, rc, f, n, tg) ==
    CASE name = "add_comm" -> <<RR2("add", f, ra, rb), RR2("add", f + 1, rb, ra)>>
      [] name = "mul_comm" -> <<RR2("mul", f, ra, rb), RR2("mul", f + 1, rb, ra)>>
      [] name = "sub_neg"  -> <<RR2("sub", f, ra, rb), I("neg", <<"fx">>, f + 1, <<rb>>, <<Z0>>), RR2("add", f + 2, ra, f + 1)>>
      [] name = "sub_self" -> <<RR2("sub", f, ra, ra)>>
-     [] name = "mul_one"  -> <<Ld(f, OneFx), RR2("mul", f + 1, ra, f), I("mul", FI, f + 2, <<ra, 0>>, <<Z0, Z1>>)>>
-     [] name = "mul_zero" -> <<Ld(f, Z0), RR2("mul", f + 1, ra, f), I("mul", FI, f + 2, <<ra, 0>>, <<Z0, Z0>>)>>
-     [] name = "div_one"  -> <<Ld(f, OneFx), RR2("div", f + 1, ra, f), I("div", FI, f + 2, <<ra, 0>>, <<Z0, Z1>>)>>
+     [] name = "mul_one"  -> <<Ld(f, OneFx), RR2("mul", f + 1, ra, f), I("mul", FI("i32"), f + 2, <<ra, 0>>, <<Z0, Z1>>)>>
+     [] name = "mul_zero" -> <<Ld(f, Z0), RR2("mul", f + 1, ra, f), I("mul", FI("i32"), f + 2, <<ra, 0>>, <<Z0, Z0>>)>>
+     [] name = "div_one"  -> <<Ld(f, OneFx), RR2("div", f + 1, ra, f), I("div", FI("i32"), f + 2, <<ra, 0>>, <<Z0, Z1>>)>>
      [] name = "div_self" -> <<RR2("div", f, ra, ra)>>
      [] name = "add_sub_cancel" -> <<RR2("add", f, ra, rb), RR2("sub", f + 1, f, rb)>>
      [] name = "add_assoc" -> <<RR2("add", f, ra, rb), RR2("add", f + 1, f, rc), RR2("add", f + 2, rb, rc), RR2("add", f + 3, ra, f + 2)>>
      [] name = "mul_n_sum" ->
-           <<I("mul", FI, f, <<ra, 0>>, <<Z0, n>>)>>
+           <<I("mul", FI(tg), f, <<ra, 0>>, <<Z0, n>>)>>
            \o (IF ZToInt(n) >= 2 THEN <<RR2("add", f + 1, ra, ra)>> \o [i \in 1..(ZToInt(n) - 2) |-> RR2("add", f + 1, f + 1, ra)] ELSE <<>>)
-     [] name = "mul_div_n" -> <<I("mul", FI, f, <<ra, 0>>, <<Z0, n>>), I("div", FI, f + 1, <<f, 0>>, <<Z0, n>>)>>
+     [] name = "mul_div_n" -> <<I("mul", FI(tg), f, <<ra, 0>>, <<Z0, n>>), I("div", FI(tg), f + 1, <<f, 0>>, <<Z0, n>>)>>
      [] name = "add_mono"  -> <<RR2("add", f, ra, rc), RR2("add", f + 1, rb, rc)>>
 
 NoNaN(outs) == \A i \in DOMAIN outs : ~IsNaN(outs[i])
